@@ -290,8 +290,171 @@ fn insert_at(b: &mut Block, target: &mut isize, rng: &mut Rng, raw: &str) {
     }
 }
 
+// ----- size families --------------------------------------------------------
+//
+// The same rule at growing size n (length of a call chain, nesting depth, number of parameters,
+// declarations or definitions): the verdict is fixed by the rule and must not depend on n.
+
+const FAMILY_MAX_N: usize = 14;
+
+struct FamCase {
+    name: String,
+    src: String,
+    /// None = must be accepted; Some(category) = must be rejected with this category
+    want: Option<fn() -> &'static str>,
+}
+
+fn chain_defs(n: usize, order: usize, last_body: &str) -> String {
+    // a1 returns a2(), ..., a(n-1) returns an(), an returns `last_body`
+    let mut defs: Vec<String> = (1..=n)
+        .map(|i| {
+            if i == n {
+                format!("do zz_a{i}() start\n    return {last_body}\nend\n")
+            } else {
+                format!("do zz_a{i}() start\n    return zz_a{}()\nend\n", i + 1)
+            }
+        })
+        .collect();
+    match order {
+        0 => {}                 // caller before callee
+        1 => defs.reverse(),    // callee before caller
+        _ => {
+            // interleaved: odd ones ascending, then even ones descending
+            let (odd, even): (Vec<_>, Vec<_>) = defs.into_iter().enumerate().partition(|(i, _)| i % 2 == 0);
+            defs = odd.into_iter().map(|x| x.1).chain(even.into_iter().rev().map(|x| x.1)).collect();
+        }
+    }
+    defs.concat()
+}
+
+fn family_cases(n: usize) -> Vec<FamCase> {
+    let mut v = Vec::new();
+    let mut add = |name: &str, src: String, want: Option<fn() -> &'static str>| {
+        v.push(FamCase { name: name.to_string(), src, want });
+    };
+    // 1. statically known return type through a chain of n functions, in three definition orders,
+    //    use before and after the definitions
+    for order in 0..3 {
+        let o = ["forward", "backward", "interleaved"][order];
+        for use_first in [false, true] {
+            let place = if use_first { "use-first" } else { "use-last" };
+            let wrap = |defs: String, usage: &str| if use_first { format!("{usage}\n{defs}") } else { format!("{defs}{usage}\n") };
+            add(&format!("type.string-through-chain.{o}.{place}"), wrap(chain_defs(n, order, "\"s\""), "shout(zz_a1() minus 1)"), Some(mismatch));
+            add(&format!("type.number-through-chain.{o}.{place}"), wrap(chain_defs(n, order, "5"), "shout(not zz_a1())"), Some(mismatch));
+            add(&format!("type.bool-through-chain.{o}.{place}"), wrap(chain_defs(n, order, "true"), "shout(zz_a1() times 2)"), Some(mismatch));
+            add(&format!("control.string-through-chain.{o}.{place}"), wrap(chain_defs(n, order, "\"s\""), "shout(zz_a1().len() add 1)"), None);
+            add(&format!("control.number-through-chain.{o}.{place}"), wrap(chain_defs(n, order, "5"), "shout(zz_a1() times 2)"), None);
+            add(&format!("control.bool-through-chain.{o}.{place}"), wrap(chain_defs(n, order, "true"), "if to say (zz_a1() and true) start\nend"), None);
+        }
+    }
+    // 2. comot / next at every position of n nested loops (after the inner loop has ended too)
+    {
+        let open: String = (0..n).map(|i| format!("make zz_l{i} get 0\njasi (zz_l{i} small pass 1) start\nzz_l{i} get zz_l{i} add 1\n")).collect();
+        let close_with = |stmt: &str| (0..n).map(|_| format!("end\n{stmt}\n")).collect::<String>();
+        // after each inner `end`, still inside the enclosing loop - except the outermost one
+        let mut s = open.clone();
+        s.push_str("comot\n");
+        for i in 0..n {
+            s.push_str("end\n");
+            if i + 1 < n {
+                s.push_str("if to say (false) start\nnext\nend\nif to say (false) start\ncomot\nend\n");
+            }
+        }
+        add("control.comot-next-after-inner-loops", s, None);
+        add("context.comot-after-outermost-loop", format!("{open}{}", close_with("")) + "comot\n", Some(unreachable_code));
+        add("context.next-after-outermost-loop", format!("{open}{}", close_with("")) + "if to say (true) start\nnext\nend\n", Some(unreachable_code));
+    }
+    // 3. a function body never inherits the loops around its definition, at any nesting
+    {
+        let open: String = (0..n).map(|_| "jasi (false) start\n".to_string()).collect();
+        let close: String = (0..n).map(|_| "end\n".to_string()).collect();
+        add("context.comot-in-function-in-loops", format!("{open}do zz_f() start\ncomot\nend\n{close}"), Some(unreachable_code));
+        add("control.return-in-loops-in-function", format!("do zz_f() start\n{open}return 1\n{close}return 2\nend\nshout(zz_f())\n"), None);
+        add("context.return-in-loops", format!("{open}return 1\n{close}"), Some(unreachable_code));
+    }
+    // 4. block nesting: outer variable visible n levels down; inner variable gone outside
+    {
+        let open: String = (0..n).map(|_| "start\n".to_string()).collect();
+        let close: String = (0..n).map(|_| "end\n".to_string()).collect();
+        add("control.outer-variable-from-nested-blocks", format!("make zz_o get 1\n{open}shout(zz_o)\nzz_o get zz_o add 1\n{close}shout(zz_o)\n"), None);
+        add("undeclared.inner-variable-after-nested-blocks", format!("{open}make zz_i get 1\n{close}shout(zz_i)\n"), Some(undeclared));
+        add("undeclared.write-inner-variable-after-nested-blocks", format!("{open}make zz_i get 1\n{close}zz_i get 2\n"), Some(assign_undeclared));
+        add("control.function-of-outer-block-from-nested-blocks", format!("{open}shout(zz_g())\n{close}do zz_g() start\nreturn 1\nend\n"), None);
+        add("function.of-nested-block-from-outside", format!("{open}do zz_h() start\nend\n{close}zz_h()\n"), Some(undeclared));
+    }
+    // 5. n parameters: exact arity accepted, one more / one fewer rejected, duplicate anywhere rejected
+    {
+        let params: Vec<String> = (0..n).map(|i| format!("zz_p{i}")).collect();
+        let args = |k: usize| (0..k).map(|i| i.to_string()).collect::<Vec<_>>().join(", ");
+        let def = format!("do zz_w({}) start\nreturn zz_p{}\nend\n", params.join(", "), n - 1);
+        add("control.arity-exact", format!("{def}shout(zz_w({}))\n", args(n)), None);
+        add("arity.one-more", format!("{def}shout(zz_w({}))\n", args(n + 1)), Some(arity));
+        add("arity.one-fewer", format!("{def}shout(zz_w({}))\n", args(n - 1)), Some(arity));
+        add("arity.one-more-forward", format!("shout(zz_w({}))\n{def}", args(n + 1)), Some(arity));
+        let mut dup = params.clone();
+        dup.push("zz_p0".to_string());
+        add("duplicate.parameter-last-repeats-first", format!("do zz_w({}) start\nend\n", dup.join(", ")), Some(duplicate));
+    }
+    // 6. n same-block declarations of one name with alternating types: the last one decides
+    {
+        let decls: String = (0..n).map(|i| if i % 2 == 0 { format!("make zz_v get {i}\n") } else { format!("make zz_v get \"s{i}\"\n") }).collect();
+        let last_is_num = (n - 1) % 2 == 0;
+        let (good, bad) = if last_is_num { ("shout(zz_v times 2)", "shout(zz_v.len())") } else { ("shout(zz_v.len())", "shout(zz_v times 2)") };
+        add("control.redeclared-n-times-used-at-last-type", format!("{decls}{good}\n"), None);
+        add("type.redeclared-n-times-used-at-earlier-type", format!("{decls}{bad}\n"), Some(if last_is_num { undeclared } else { mismatch }));
+    }
+    // 7. n functions in one block, the first one defined again at the end
+    {
+        let defs: String = (0..n).map(|i| format!("do zz_d{i}() start\nend\n")).collect();
+        add("control.n-functions", defs.clone(), None);
+        add("duplicate.function-after-n-others", format!("{defs}do zz_d0() start\nend\n"), Some(duplicate));
+    }
+    // 8. n nested functions: the innermost sees the outermost's variable and parameter; the
+    //    outside does not see the inner functions
+    {
+        let open: String = (0..n).map(|i| format!("do zz_n{i}(zz_q{i}) start\n")).collect();
+        let mut close = String::new();
+        for i in (0..n).rev() {
+            if i + 1 < n {
+                close.push_str(&format!("return zz_n{}(zz_q{i})\n", i + 1));
+            }
+            close.push_str("end\n");
+        }
+        add("control.innermost-function-reads-outermost-names", format!("make zz_top get 1\n{open}return zz_top add zz_q0\n{close}shout(zz_n0(1))\n"), None);
+        if n >= 2 {
+            add("function.inner-function-from-top", format!("{open}return 1\n{close}shout(zz_n{}(1))\n", n - 1), Some(undeclared));
+            add("undeclared.inner-parameter-from-top", format!("{open}return 1\n{close}shout(zz_q{})\n", n - 1), Some(undeclared));
+        }
+    }
+    v
+}
+
+fn run_families(ctx: &mut Ctx) {
+    let mut cases: Vec<(usize, FamCase)> = Vec::new();
+    for n in 1..=FAMILY_MAX_N {
+        for c in family_cases(n) {
+            cases.push((n, c));
+        }
+    }
+    let total = cases.len() as u64;
+    ctx.out.extra.insert("family_cases".into(), json!(total));
+    ctx.out.extra.insert("family_max_n".into(), json!(FAMILY_MAX_N));
+    let idxs: Vec<u64> = ctx.indices().filter(|i| *i < total).collect();
+    for idx in idxs {
+        ctx.out.begin(idx);
+        let (n, c) = &cases[idx as usize];
+        let name: &'static str = Box::leak(format!("family.{}", c.name).into_boxed_str());
+        let rule = Rule { name, text: "", category: c.want.unwrap_or(none), when: if c.want.is_some() { When::Always } else { When::Never } };
+        judge(ctx, idx, &c.src, &rule, &format!("n={n}"), c.want.is_some(), *n >= 2);
+    }
+}
+
 pub fn run(ctx: &mut Ctx) {
     let stage = ctx.opt("stage").unwrap_or("matrix").to_string();
+    if stage == "family" {
+        run_families(ctx);
+        return;
+    }
     let rules = rules();
     if stage == "matrix" {
         let total = (rules.len() * CONTEXTS.len()) as u64;
